@@ -519,6 +519,11 @@ def case_rejection(ctx, rng):
         'several-ensembles-prefix-merge': lambda: pe.merge_obs([pe.Obs([x], ['A']), pe.Obs([y], ['A1'])]),
         'several-ensembles-prefix-merge-replica': lambda: pe.merge_obs([pe.Obs([x], ['L32|r1']), pe.Obs([y], ['L32T64|r0'])]),
         'separator-in-cov-name': lambda: pe.cov_Obs(1.0, 0.1, 'cv|x'),
+        # the same malformed requests with the optional gradient argument given (scalar, list, array)
+        'separator-in-cov-name-with-grad': lambda: pe.cov_Obs(1.0, 0.1, 'cv|x', grad=[1.0]),
+        'separator-in-cov-name-with-grad-matrix': lambda: pe.cov_Obs([1.0, 2.0], [[1.0, 0.1], [0.1, 1.0]], 'A|r2', grad=np.array([1.0, 0.5])),
+        'negative-variance-with-grad': lambda: pe.cov_Obs(1.0, -0.1, 'cvR', grad=[1.0]),
+        'asymmetric-cov-with-grad': lambda: pe.cov_Obs([1.0, 2.0], [[1.0, 0.3], [0.1, 1.0]], 'cvR', grad=[1.0, 0.5]),
         'asymmetric-cov': lambda: pe.cov_Obs([1.0, 2.0], [[1.0, 0.3], [0.1, 1.0]], 'cvR'),
         'indefinite-cov': lambda: pe.cov_Obs([1.0, 2.0], [[1.0, 2.0], [2.0, 1.0]], 'cvR'),
         'negative-variance': lambda: pe.cov_Obs(1.0, -0.1, 'cvR'),
